@@ -132,9 +132,11 @@ def check_elementwise(c, rec):
 # ---- softmax family -----------------------------------------------------------------------------
 @st.composite
 def logit_cases(draw, op):
-    n = draw(st.integers(1, 4)); k = draw(st.sampled_from([2, 3, 4, 5, 6, 6, 40, 300]))
+    n = draw(st.sampled_from([1, 2, 3, 4, 4, 130, 260])); k = draw(st.sampled_from([2, 3, 4, 5, 6, 6, 40, 300]))
+    if n > 4:
+        k = min(k, 4)
     rows = []
-    for _ in range(n):
+    for _ in range(min(n, 5)):
         base = draw(big_value())
         spread = draw(st.sampled_from([0.0, 1.0, 20.0, 30.0, 90.0, 110.0, 800.0, 2e4]))
         if k <= 6:
@@ -143,12 +145,16 @@ def logit_cases(draw, op):
             pat = [draw(st.integers(-4, 4)) / 4.0 for _ in range(7)]
             row = [base + spread * pat[(j * j + 3 * j) % 7] for j in range(k)]
         rows.append([float(np.float32(max(-1e4, min(1e4, v)))) for v in row])
+    rows = [rows[(j * 3 + j // 5) % len(rows)] for j in range(n)]
+    gpat = [[draw(st.integers(-8, 8)) / 4.0 for _ in range(min(k, 6))] * (k // min(k, 6) + 1) for _ in range(min(n, 5))]
     c = {"op": op, "x": rows, "dtype": draw(st.sampled_from(["float32", "float64"])),
-         "g": [[draw(st.integers(-8, 8)) / 4.0 for _ in range(min(k, 6))] * (k // min(k, 6) + 1) for _ in range(n)],
+         "g": [gpat[j % len(gpat)] for j in range(n)],
          "form": draw(st.sampled_from(["fn", "module"])), "transposed": draw(st.booleans()),
          "layout": draw(st.sampled_from(["C", "C", "F", "strided"]))}
     if op == "cross_entropy":
-        c["labels"] = [draw(st.integers(0, k - 1)) for _ in range(n)]
+        lp = [draw(st.integers(0, k - 1)) for _ in range(min(n, 7))]
+        c["labels"] = [lp[(j * j + j) % len(lp)] for j in range(n)]
+        c["label_dtype"] = draw(st.sampled_from(["int64", "int8", "uint8", "int32"] if k <= 127 else ["int64", "int32"]))
         c["reduction"] = draw(st.sampled_from(["none", "sum", "mean"]))
     return c
 
@@ -192,7 +198,8 @@ def check_logits(c, rec):
             out.backward(Tensor(g))
         except Exception as e:  # noqa: BLE001
             raise Violation("backward_raised", f"{op}: backward raised {type(e).__name__}: {e}; {ctx}")
-        gs = max(1.0, float(np.abs(g64).max()))
+        # the VJP sums k terms g_j s_j (or g_j): single precision relative to the magnitude of that sum
+        gs = max(1.0, float(np.abs(g64).sum(axis=1).max()))
         _check_close(f"{op} gradient", t.grad.data, wgrad, gs * scale, ctx + f" dim={dim} g={c['g']}")
         return
     # cross entropy
@@ -200,7 +207,7 @@ def check_logits(c, rec):
     from ..ops import _layout
     t = Tensor(_layout(x.copy(), c.get("layout", "C")), requires_grad=True)
     rec.tag("layout_" + c.get("layout", "C"))
-    lab = Tensor(labels.astype(np.int64))
+    lab = Tensor(labels.astype(c.get("label_dtype", "int64")))
     if c["form"] == "module":
         out = nn.CrossEntropyLoss(reduction=c["reduction"])(t, lab)
         red = c["reduction"]
